@@ -177,7 +177,7 @@ func c06Run(r *tr.Run, cs c06Case) (gateReached bool) {
 	go func() {
 		defer close(runDone)
 		err := router.Run(verifhook.WithName(ctx, prefix+"run"))
-		r.Emit("runret", "ok", err == nil, "states", states())
+		r.Emit("runret", "ok", err == nil, "t", now(), "states", states())
 	}()
 	select {
 	case <-router.Running():
@@ -316,7 +316,20 @@ func c06Run(r *tr.Run, cs c06Case) (gateReached bool) {
 		_ = gc.Close()
 	}
 	<-waitOr(waitWG(&ew), HangBound)
-	// subscriber.Close() of a handler may legitimately be called shortly after Close returned
+	// subscriber.Close() of a handler may legitimately be called shortly after Close returned: wait (bounded) for it
+	deadline := time.Now().Add(3 * time.Second)
+	for time.Now().Before(deadline) {
+		n := 0
+		for _, s := range subs {
+			if s.CloseCalls() > 0 {
+				n++
+			}
+		}
+		if cs.Source != "scripted" || n >= len(subs) {
+			break
+		}
+		time.Sleep(2 * time.Millisecond)
+	}
 	time.Sleep(20 * time.Millisecond)
 	r.Emit("quiesce", "states", states())
 	r.NonTrivial = gateReached
